@@ -876,22 +876,32 @@ def enum_open(w, op):
         return
     if not m1.atoms or not m2.atoms:
         return
+    big = False
     if not brute.applicable(m1, m2, stereo, changes):
-        w.stats["probe_skipped:oracle-not-applicable"] += 1
-        return
+        # above the exhaustive bound: validity, uniqueness and group closure of
+        # a bounded prefix are still decidable (needs sane, specified graphs)
+        ok = all((not (stereo or changes)) or (m.sane() and all(d[2] is not None for _t, d in brute._desc_sets(m, stereo, changes)))
+                 for m in (m1, m2))
+        if not ok or max(len(m1.atoms), len(m2.atoms)) > 24:
+            w.stats["probe_skipped:oracle-not-applicable"] += 1
+            return
+        big = True
     lab = op.get("labels")
     l1, l2 = _labels_for(m1, lab, 0), _labels_for(m2, lab, 0)
     gs = Slot("gen")
     gs.data.update(inputs=[op["g1"], op["g2"]], yielded=[], kind="enum", stereo=stereo,
                    changes=changes, labels=lab, done=False, m1=m1.clone(), m2=m2.clone())
-    orc = _enum_oracle(gs)
-    if orc is None or len(orc) > 1500:
+    orc = None if big else _enum_oracle(gs)
+    if not big and (orc is None or len(orc) > 1500):
         # astronomically symmetric (e.g. ten unbonded atoms of one element):
-        # the oracle abstains, nothing is opened
-        w.stats["probe_skipped:oracle-budget"] += 1
-        return
+        # the exhaustive oracle abstains; fall back to prefix checking
+        big = True
+        orc = None
+    gs.data["big"] = big
     gs.data["oracle"] = orc
-    gs.data["n_oracle"] = len(orc)
+    gs.data["n_oracle"] = len(orc) if orc is not None else 40
+    if big:
+        w.stats["enum_opened_above_exhaustive_bound"] += 1
     a.locks += 1
     b.locks += 1
     if w.real_enabled:
@@ -907,7 +917,7 @@ def enum_open(w, op):
 
 def _enum_oracle(gs):
     d = gs.data
-    if "oracle" in d:
+    if "oracle" in d and (d["oracle"] is not None or d.get("big")):
         return d["oracle"]
     m1, m2 = d["m1"], d["m2"]
     lab = d["labels"]
@@ -925,8 +935,46 @@ def _enum_tag(d):
     return f"stereo={int(d['stereo'])},changes={int(d['changes'])},labels={d['labels']}"
 
 
+def _enum_check_big(w, gs, final):
+    """validity / uniqueness / closure where the exhaustive oracle abstains"""
+    d = gs.data
+    cls = d.get("cls", "")
+    tag = _enum_tag(d) + ",prefix-only"
+    m1, m2 = d["m1"], d["m2"]
+    labels = None
+    if d["labels"] is not None:
+        labels = (_labels_for(m1, d["labels"], 0), _labels_for(m2, d["labels"], 0))
+    got = [_fz(x) for x in d["yielded"]]
+    if len(set(got)) != len(got):
+        w.report({"C05"}, f"enum|duplicate-mapping|{tag}|{cls}", "")
+        return False
+    for x in d["yielded"]:
+        if not brute.valid_mapping(m1, m2, x, labels=labels, stereo=d["stereo"], changes=d["changes"]):
+            w.report({"C05"}, f"enum|invalid-mapping|{tag}|{cls}",
+                     repr({"mapping": _fz(x), "g1": m1.view(), "g2": m2.view()})[:2500])
+            return False
+    if final and got and (d["inputs"][0] == d["inputs"][1]):
+        S = set(got)
+        ident = _fz({a: a for a in m1.atoms})
+        if ident not in S:
+            w.report({"C05"}, f"enum|identity-missing|{tag}|{cls}", "")
+            return False
+        for x in d["yielded"][:10]:
+            if _fz({v: k for k, v in x.items()}) not in S:
+                w.report({"C05"}, f"enum|not-a-group|{tag}|{cls}", "")
+                return False
+            for y in d["yielded"][:10]:
+                if _fz({k: y[v] for k, v in x.items()}) not in S:
+                    w.report({"C05"}, f"enum|not-a-group|{tag}|{cls}", "")
+                    return False
+    w.stats["enum_prefix_checked_above_bound"] += 1
+    return True
+
+
 def _enum_check_prefix(w, gs, final):
     d = gs.data
+    if d.get("big"):
+        return _enum_check_big(w, gs, final)
     orc = _enum_oracle(gs)
     if orc is None:
         w.stats["probe_skipped:oracle-budget"] += 1
@@ -997,6 +1045,15 @@ def gen_next(w, op):
                 val[-998] = 0
         else:
             _on_isomer(w, gs, val, op)
+        if gs.data.get("big") and len(gs.data["yielded"]) >= 400:
+            # bounded prefix of a possibly astronomically large enumeration
+            try:
+                gs.real.close()
+            except Exception:  # noqa: BLE001
+                pass
+            _enum_check_prefix(w, gs, final=False)
+            _finish(w, gs)
+            return
         if len(gs.data["yielded"]) > 6000:
             w.report({"C05"}, f"enum|runaway|{gs.data.get('cls', '')}", "")
             _finish(w, gs)
@@ -1055,7 +1112,7 @@ def _finish(w, gs):
 
 def _on_exhausted(w, gs):
     if gs.data["kind"] == "enum":
-        if _enum_check_prefix(w, gs, final=True):
+        if _enum_check_prefix(w, gs, final=True) and not gs.data.get("big"):
             d = gs.data
             # group closure for a graph against itself
             if d["inputs"][0] == d["inputs"][1] or d["m1"].digest_tuple() == d["m2"].digest_tuple():
